@@ -599,23 +599,39 @@ class ConditionLike:
 
 
 def _arg_to_json_like(arg, cast_types=False):
-    """Serialise a callable argument such that `ConditionLike.from_spec` rebuilds it."""
-    if isinstance(arg, valida.datapath.DataPath):
-        return arg.to_spec()
-    if cast_types and isinstance(arg, type):
-        return INV_DTYPE_LOOKUP.get(arg, arg)
-    if isinstance(arg, (list, tuple)):
-        return [_arg_to_json_like(i, cast_types) for i in arg]
-    if isinstance(arg, dict):
-        arg = {k: _arg_to_json_like(v, cast_types) for k, v in arg.items()}
-        if any(isinstance(k, str) and "path" in k for k in arg):
+    """Serialise a callable argument such that `ConditionLike.from_spec` rebuilds it.
+
+    `from_spec` looks for `DataPath` specs (and un-escapes literal mappings) in the
+    argument itself, in the items of a list argument and in the values of a mapping
+    argument, but no deeper; literal mappings are escaped at exactly those places.
+    """
+
+    def escape(mapping):
+        mapping = copy.deepcopy(mapping)
+        if any(isinstance(k, str) and "path" in k for k in mapping):
             # escape keys so the mapping is not mistaken for a `DataPath` spec:
-            arg = {
+            mapping = {
                 (k.replace("path", r"\path") if isinstance(k, str) else k): v
-                for k, v in arg.items()
+                for k, v in mapping.items()
             }
-        return arg
-    return copy.deepcopy(arg)
+        return mapping
+
+    def item(val):
+        if isinstance(val, valida.datapath.DataPath):
+            return val.to_spec()
+        if cast_types and isinstance(val, type):
+            return INV_DTYPE_LOOKUP.get(val, val)
+        if isinstance(val, dict):
+            return escape(val)
+        return copy.deepcopy(val)
+
+    if isinstance(arg, (list, tuple)):
+        return [item(i) for i in arg]
+    if isinstance(arg, dict):
+        if any(isinstance(k, str) and "path" in k for k in arg):
+            return escape(arg)
+        return {k: item(v) for k, v in arg.items()}
+    return item(arg)
 
 
 class Condition(ConditionLike):
